@@ -38,6 +38,13 @@ def rule_classify(ctx):
     src = describe(nxt.args[0]) if nxt.args else '?'
     ok_src = bool(re.match(r'^call:IntoIterator::into_iter\(call:PayloadSnapshot::origins\(snapshot\)\)$', src)) or \
         bool(re.match(r'^call:PayloadSnapshot::origins\(snapshot\)$', src))
+    # `snapshot.origins().filter(|item| item.prefix.covers(prefix))`: the covering test as an adaptor over the complete set
+    pre_filtered = False
+    mfl = re.match(r'^(?:call:IntoIterator::into_iter\()?call:Iterator::filter\(call:PayloadSnapshot::origins\(snapshot\),.*\{closure#(\d+)\}.*\)\)?$', src)
+    if not ok_src and mfl:
+        outs = [cp.outcome or '' for c in ctx.closures(b) if c.nid.endswith('{closure#%s}' % mfl.group(1)) for cp in enumerate_paths(c, ctx.facts)]
+        if outs and all(re.match(r'^call:Prefix::covers\(call:MaxLenPrefix::prefix\(.*\),(upvar:)?prefix\)$', o) for o in outs):
+            ok_src = pre_filtered = True
     ctx.check(ok_src, 'prov', 'RouteValidity::new:iterates-all-origins',
               'the loop iterates over snapshot.origins(), the complete VRP set',
               'the loop iterates over `%s` instead of the complete VRP set snapshot.origins(): covering VRPs outside that '
@@ -46,7 +53,7 @@ def rule_classify(ctx):
     paths = []
     for st in starts:
         paths += enumerate_paths(b, ctx.facts, start=st)
-    ctx.floor('K4', 'iteration paths', len(paths), 4)
+    ctx.floor('K4', 'iteration paths', len(paths), 3 if pre_filtered else 4)
     seen = set()
     for p in paths:
         if p.kind == 'diverge':
@@ -68,6 +75,31 @@ def rule_classify(ctx):
                 ctx.check(v.endswith(',asn)') or ',asn)' in v or '(asn,' in v, 'prov', 'RouteValidity::new:asn-operands',
                           'VRP asn compared with route asn', 'asn comparison is %s' % v)
         pushes = [user_local_of(b, s.term['args'][0]) for s in p.called('Vec::push')]
+        # `let bucket = if .. { &mut bad_len } else ..; bucket.push(item)`: the vector is the one the reference points to on this path
+        def target_on_path(s):
+            pl = s.term['args'][0].get('m') or s.term['args'][0].get('c')
+            for _ in range(8):
+                if not pl:
+                    return None
+                l = pl[0]
+                if l in b._names and b._names[l] in ('matched', 'bad_asn', 'bad_len'):
+                    return b._names[l]
+                d = (p.env or {}).get(('def', l))
+                if d is None:
+                    return b._names.get(l)
+                rv = d[1].get('rv') if isinstance(d[1], dict) else None
+                if not rv:
+                    return None
+                if rv['r'] == 'ref':
+                    pl = rv.get('p')
+                elif rv['r'] == 'use':
+                    pl = rv['o'].get('m') or rv['o'].get('c')
+                else:
+                    return None
+            return None
+        pushes = [x if x in ('matched', 'bad_asn', 'bad_len') else target_on_path(s) for x, s in zip(pushes, p.called('Vec::push'))]
+        if pre_filtered and cov is None:
+            cov = 'true'
         if cov == 'false':
             exp = []
             row = 'not-covering'
@@ -101,6 +133,8 @@ def rule_classify(ctx):
         seen.add(row)
         ctx.check(pushes == exp, 'K4', 'RouteValidity::new:%s' % row, 'pushed to %s' % pushes,
                   'a VRP that is %s is pushed to %s, expected %s' % (row, pushes, exp))
+    if pre_filtered:
+        seen.add('not-covering')
     ctx.check(seen == {'not-covering', 'covering,too-long', 'covering,fits,same-as', 'covering,fits,other-as'}, 'K4',
               'RouteValidity::new:all-rows', 'all four classification rows present', 'rows present: %s' % sorted(seen))
     # the struct is built from the three vectors
